@@ -37,6 +37,8 @@ func (h *JSONStreamBulkHandler) GetChannels(_ http.ResponseWriter, r *http.Reque
 				if err != nil {
 					if !errors.Is(err, io.EOF) { // the end of the stream is not an error
 						h.err = err
+						h.actions = append(h.actions, "")
+						h.channel <- newInvalidElement(err)
 					}
 					return
 				}
